@@ -82,3 +82,53 @@ Definition all_valid_instrs : list instr :=
   ++ flat_map (fun c => map (I_BREL c) (zrange (-128) 256)) all_conds
   ++ prod2 I_CALL regs16 regs16 ++ prod2 I_RETURN regs16 regs16
   ++ map I_SWI (zrange 0 16) ++ [I_RTI].
+
+(* ---- decoding by arithmetic on the four nibbles (independent of any bit-pattern string) ------ *)
+Definition cond_of_code (k : Z) : option cond :=
+  if k =? 0 then Some cBR else if k =? 2 then Some cBL else if k =? 3 then Some cBGE
+  else if k =? 4 then Some cBLE else if k =? 5 then Some cBG else if k =? 6 then Some cBULE
+  else if k =? 7 then Some cBUG else if k =? 8 then Some cBZ else if k =? 9 then Some cBNZ
+  else if k =? 10 then Some cBC else if k =? 11 then Some cBNC else if k =? 12 then Some cBS
+  else if k =? 13 then Some cBNS else if k =? 14 then Some cBV else if k =? 15 then Some cBNV
+  else None.
+
+Definition decode_word (w : Z) : option instr :=
+  if (w <? 0) || (65536 <=? w) then None else
+  let n3 := w / 4096 in let n2 := (w / 256) mod 16 in let n1 := (w / 16) mod 16 in let n0 := w mod 16 in
+  let lowb := w mod 256 in
+  if n3 =? 14 then Some (I_SETLO n2 lowb)
+  else if n3 =? 15 then Some (I_SETHI n2 lowb)
+  else if n3 =? 8 then Some (I_AND n2 n1 n0)
+  else if n3 =? 9 then Some (I_OR n2 n1 n0)
+  else if n3 =? 10 then Some (I_ADD n2 n1 n0)
+  else if n3 =? 11 then Some (I_SUB n2 n1 n0)
+  else if n3 =? 12 then Some (I_MUL n2 n1 n0)
+  else if n3 =? 13 then Some (I_XOR n2 n1 n0)
+  else if n3 =? 3 then
+    if 192 <=? lowb then Some (I_DEC n2 (lowb - 192 + 1))
+    else if 128 <=? lowb then Some (I_INC n2 (lowb - 128 + 1))
+    else if n1 =? 0 then Some (I_LSL n2 n0)
+    else if n1 =? 1 then Some (I_LSR n2 n0)
+    else if n1 =? 2 then Some (I_LSL8 n2 n0)
+    else if n1 =? 3 then Some (I_LSR8 n2 n0)
+    else if n1 =? 4 then Some (I_ASL n2 n0)
+    else if n1 =? 5 then Some (I_ASR n2 n0)
+    else if n1 =? 7 then (if n0 =? 0 then Some (I_SAVEF n2) else if n0 =? 8 then Some (I_RSTRF n2) else None)
+    else (* n1 = 6: flag instructions, selected by the upper three bits of n2 *)
+      if n2 / 2 =? 0 then Some (I_FON (16 * (n2 mod 2) + n0))
+      else if n2 / 2 =? 2 then Some (I_FSET5 (16 * (n2 mod 2) + n0))
+      else if n2 / 2 =? 4 then Some (I_FOFF (16 * (n2 mod 2) + n0))
+      else if n2 =? 12 then Some (I_FSET4 n0)
+      else None
+  else if (n3 =? 4) || (n3 =? 5) then Some (I_LOAD n2 (16 * (n3 - 4) + n1) n0)
+  else if (n3 =? 6) || (n3 =? 7) then Some (I_STORE n2 (16 * (n3 - 6) + n1) n0)
+  else if n3 =? 1 then
+    (if n1 =? 0 then match cond_of_code n2 with Some c => Some (I_B c n0) | None => None end else None)
+  else if n3 =? 0 then
+    match cond_of_code n2 with Some c => Some (I_BREL c lowb) | None => None end
+  else (* n3 = 2 *)
+    if n2 =? 0 then Some (I_CALL n1 n0)
+    else if n2 =? 1 then Some (I_RETURN n1 n0)
+    else if (n2 =? 2) && (n1 =? 0) then Some (I_SWI n0)
+    else if (n2 =? 3) && (lowb =? 0) then Some I_RTI
+    else None.
